@@ -5,11 +5,13 @@ from .. import core
 from ..core import HEADER, CASE_TYPE, CHECK, MODEL_VIEW, SHARD, CASE_TIMEOUT, observe, coq_term, nontrivial_key, tags  # noqa: F401
 
 ID = "C03"
-THEOREMS = ["C03_conservation", "C03_offsets_step", "C03_star_eq", "C03_at_eq_no_flush"]
+THEOREMS = ["C03_conservation", "C03_offsets_step", "C03_star_eq", "C03_at_eq_no_flush", "C03_run_conservation",
+            "C03_run_offsets"]
 RULE = ("generated programs with frequent *= / @= moves (ROM and RAM targets), bank crossings, LoROM/HiROM/low2 and "
         "user .map configurations; the emission trace (run address, resolver.pc, bytes per node) is recorded by wrapping "
         "emit; non-trivial: assembles and emits bytes; distinct by source text")
-PROVED_NOTE = ("proved: conservation of bytes per step; the in-step invariant (file offset of the next byte = offset the "
+PROVED_NOTE = ("proved: conservation of bytes per step and over whole runs (writer blocks + open block = all node bytes in "
+               "order); whole runs of non-position nodes stay in step across any number of bank ends; the in-step invariant (file offset of the next byte = offset the "
                "mapping assigns to the run address) is preserved by every non-position node incl. bank crossings (uses the "
                "C04 advance law) and re-established by *=; @= does not flush. Correspondence-only: the flush protocol of "
                "Program.emit as a whole is compared with an independent cutter (cut_spec) on the implementation's trace.")
